@@ -2061,6 +2061,122 @@ def check_builtins(ctx, pp):
     ctx.count_cases("oracle:builtin-callables", n)
 
 
+# ------------------------------------------------------------------------------------------------
+# directed protocol cases (real code only; expectations constructed from the statement):
+#   (a) a callable whose OWN signature differs from what introspection of a wrapped function would suggest
+#       (functools.wraps sets __wrapped__): it is called with the trailing arguments IT accepts;
+#   (b) SkipTo(target, include=...): while scanning, actions inside the target do not run; with include=True they run
+#       once, for the target match that is returned, at its location; with include=False not at all.
+# ------------------------------------------------------------------------------------------------
+def directed_cases():
+    import functools
+    import re as _re
+    out = []
+
+    def wraps_case(own, inner_arity):
+        def build(pp):
+            def inner3(s, l, t):
+                return [str(t[0]) + "!"]
+
+            def inner1(t):
+                return [str(t[0]) + "!"]
+
+            def inner0():
+                return ["!"]
+
+            base = {3: inner3, 1: inner1, 0: inner0}[inner_arity]
+            calls = []
+            if own == 3:
+                @functools.wraps(base)
+                def deco(s, l, t):
+                    calls.append(3)
+                    return [str(t[0]) + "?"]
+            elif own == 2:
+                @functools.wraps(base)
+                def deco(l, t):
+                    calls.append(2)
+                    return [str(t[0]) + "?"]
+            elif own == 1:
+                @functools.wraps(base)
+                def deco(t):
+                    calls.append(1)
+                    return [str(t[0]) + "?"]
+            else:
+                @functools.wraps(base)
+                def deco():
+                    calls.append(0)
+                    return ["?"]
+            e = pp.Word("ab").set_parse_action(deco)
+            c = pp.Word("ab").add_condition(functools.wraps(base)(
+                {3: lambda s, l, t: True, 2: lambda l, t: True, 1: lambda t: True, 0: lambda: True}[own]))
+            got = []
+            for x in (e, c):
+                for _ in range(2):     # first call (arity search) and a later call (sticky arity)
+                    try:
+                        got.append(x.parse_string("ab").as_list())
+                    except Exception as ex:  # noqa
+                        got.append(f"{type(ex).__name__}: {ex}"[:80])
+            want = [["ab?"] if own else ["?"]] * 2 + [["ab"]] * 2
+            return want, got
+        return (f"functools.wraps: own arity {own} over a wrapped function of arity {inner_arity}", build)
+
+    for own in (0, 1, 2, 3):
+        for inner_arity in (0, 1, 3):
+            if own != inner_arity:
+                out.append(wraps_case(own, inner_arity))
+
+    def skipto_case(include, text, shape):
+        def build(pp):
+            log = []
+            num = pp.Word("0123456789").add_parse_action(lambda s, l, t: log.append((l, t[0])))
+            if shape == "seq":
+                target = num + pp.Literal(";")
+                rx = _re.compile(r"\d+[ \t]*;")
+            elif shape == "group":
+                target = pp.Group(num + pp.Literal(";"))
+                rx = _re.compile(r"\d+[ \t]*;")
+            else:
+                target = num + pp.FollowedBy(pp.Literal("!")) + pp.Literal("!")
+                rx = _re.compile(r"\d+[ \t]*!")
+            e = pp.SkipTo(target, include=include)
+            m = rx.search(text)
+            try:
+                e.parse_string(text)
+                ok = True
+            except pp.ParseBaseException:
+                ok = False
+            if m is None:
+                want = []
+            else:
+                want = [(m.start(), _re.match(r"\d+", text[m.start():]).group())] if include else []
+            # a run of digits is entered at its first digit only (Word is greedy), so the returned match starts there
+            return want, (log if ok == (m is not None) else f"parse {'succeeded' if ok else 'failed'} unexpectedly; log {log}")
+        return (f"SkipTo(include={include}, target {shape}) on {text!r}", build)
+
+    for include in (True, False):
+        for shape in ("seq", "group", "lookahead"):
+            for text in ("a 1 b 22; rest", "1 2 3;", "x 7 ! 8!", "12 ;", "no match 5", "9 9! 10 ;"):
+                out.append(skipto_case(include, text, shape))
+    return out
+
+
+def check_directed(ctx, pp):
+    n = bad = 0
+    cases = directed_cases()
+    for desc, build in cases:
+        n += 1
+        try:
+            want, got = common.with_alarm(5, build, pp)
+        except common.CaseTimeout:
+            want, got = "returns", "does not return"
+        if got != want and bad < 3:
+            bad += 1
+            thm = "PP.ActionGate.skipTo_scan_fires_nothing / skipTo_without_include_is_silent" if desc.startswith("SkipTo") \
+                else "PP.TrimArity.called_once_with_trailing_args"
+            ctx.fail_input("parse action protocol (directed case)", {"directed": desc}, want, got, theorem=thm)
+    ctx.count_cases("oracle:directed-protocol", n, distinct_keys=[d for d, _ in cases], outcomes={"cases": n, "problems": bad})
+
+
 def run(ctx):
     pp = common.import_pyparsing()
     facts = live_facts(pp)
@@ -2106,6 +2222,7 @@ def run(ctx):
     seeds["nest"] = check_nest(ctx, pp, cfg, gen_nest_cases(ctx, ctx.budget(3000, 40000)))
     check_clevel(ctx, pp, cfg)
     check_builtins(ctx, pp)
+    check_directed(ctx, pp)
     # elements configured through histories of set_parse_action / add_parse_action / add_condition / copy
     seeds["gate-ops"] = check_ops(ctx, pp, ctx.budget(800, 10000))
     hist_cases = gen_gate_cases(ctx, tag="gate-hist", n=ctx.budget(600, 8000), p_hist=1.0, p_focus=0.7,
@@ -2233,6 +2350,9 @@ def replay(data):
         c = _nest_case_of(case)
         obs, oacc, o_is_class, iacc, i_is_class, clevel = run_nest_real(pp, *c)
         return oracle_nest(c[0], oacc, o_is_class, iacc, i_is_class, clevel, c[4], obs) is not None
+    if "directed" in case:
+        want, got = dict(directed_cases())[case["directed"]](pp)
+        return want != got
     if "builtin" in case:
         c2 = common.Ctx("C13", "quick", 0)
         check_builtins(c2, pp)
